@@ -166,7 +166,8 @@ def check_after_edit(pts):
 def run_one(kind, inp):
     if kind == "seg":
         pts = [tuple(p) for p in inp["pts"]]
-        return check_segment(pts) or check_after_edit(pts)
+        box = lambda g: (lambda b: (b.left, b.bottom, b.right, b.top))(g.bounds())
+        return check_segment(pts) or check_after_edit(pts) or oc.repeat_check(pts, [("findExtremes()", lambda g: tuple(g.findExtremes())), ("bounds()", box)])
     segs = [[tuple(p) for p in s] for s in inp["segs"]]
     chained = []
     cur = segs[0][0]
